@@ -9,6 +9,7 @@ require (
 
 require (
 	github.com/akramarenkov/breaker v0.1.0 // indirect
+	github.com/akramarenkov/safe v0.2.3 // indirect
 	golang.org/x/exp v0.0.0-20240613232115-7f521ea00fb8 // indirect
 )
 
